@@ -235,13 +235,21 @@ impl Scenario for C02 {
             (Tier::Thorough, 0) => rng.range(13, 16) as u8,
             (_, 1) => 4,
             (_, 2) => 12,
+            // large configurations: the coupon set lives through several table doublings (up to
+            // 3/4 of 2^(lg_k-3) coupons) before the register array is allocated
+            (_, 3) => rng.range(17, 21) as u8,
             _ => rng.range(4, 12) as u8,
         };
         let k = 1usize << lg_k;
-        let max = match rng.below(4) {
-            0 => 40,
-            1 => k,
-            _ => (6 * k).min(if tier == Tier::Quick { 6_000 } else { 60_000 }),
+        let max = if lg_k >= 17 {
+            let promote = 3 * (k >> 3) / 4;
+            (promote + promote / 4).min(if tier == Tier::Quick { 30_000 } else { 260_000 }).min(rng.range(2_000, 300_000) as usize)
+        } else {
+            match rng.below(4) {
+                0 => 40,
+                1 => k,
+                _ => (6 * k).min(if tier == Tier::Quick { 6_000 } else { 60_000 }),
+            }
         };
         let mut coupons: Vec<u32> = vec![];
         let phases = 1 + rng.below(3);
